@@ -1,9 +1,9 @@
 (* C18 driver.
-   (journal ID PATH FMT XACTS ((VISITED ACCT) ...) ((FLAGS SYM ANNOT?) ...))   ANNOT? = () | (AMT DATE) -> "ID csv HEX" "ID csvd HEX" "ID emacs HEX" "ID xmlt HEX"
+   (journal ID PATH AUXFLAG FMT XACTS ((VISITED ACCT) ...) ((FLAGS SYM ANNOT?) ...))   ANNOT? = () | (AMT DATE) -> "ID csv HEX" "ID csvd HEX" "ID emacs HEX" "ID xmlt HEX"
                                               "ID xmla HEX" "ID xmlc HEX"
      FMT   = ((default|rfc|bare date|code|payee|account|commodity|quantity|state|note) ...)
-     XACTS = ((LINE Y M D STATE CODE? PAYEE NOTE? META (POST ...)) ...)
-     POST  = (LINE VIRT STATE ACCT AMT COST? NOTE? META-ON-THE-LINE META-ON-LATER-LINES)
+     XACTS = ((LINE Y M D AUXDATE? STATE CODE? PAYEE NOTE? META (POST ...)) ...)     DATE? = () | ((Y M D))
+     POST  = (LINE VIRT STATE ACCT AMT COST? NOTE? DATE? AUXDATE? META-ON-THE-LINE META-ON-LATER-LINES)
      AMT   = (TEXT FLAGS SYM? QTY)          META = ((OVERWRITE KEY VALUE?) ...) in source order
      X?    = () | (HEX)        strings are hex, "-" is the empty string
    (enc ID HEX)   -> "ID enc EMACS CSVQ CSVRFC JOIN XML"          the escaping functions alone
@@ -27,17 +27,22 @@ let meta_of = function
   | L es -> List.map (function L [ow; A k; v] -> ((batom ow, hx k), opt v) | _ -> failwith "meta") es
   | _ -> failwith "meta list"
 
+let date_opt = function
+  | L [] -> None
+  | L [L [y; m; d]] -> Some ((zatom y, zatom m), zatom d)
+  | _ -> failwith "date"
+
 let post_of = function
-  | L [ln; v; st; A acct; a; c; n; mi; ml] ->
+  | L [ln; v; st; A acct; a; c; n; pd; pa; mi; ml] ->
     { p_line = zatom ln; p_virtual = zatom v; p_state = zatom st; p_account = hx acct;
       p_amount = amt_of a;
       p_cost = (match c with L [] -> None | L [x] -> Some (amt_of x) | _ -> failwith "cost");
-      p_note = opt n; p_meta_inline = meta_of mi; p_meta_later = meta_of ml }
+      p_note = opt n; p_date = date_opt pd; p_aux = date_opt pa; p_meta_inline = meta_of mi; p_meta_later = meta_of ml }
   | _ -> failwith "post"
 
 let xact_of = function
-  | L [ln; y; m; d; st; c; A payee; n; xm; L posts] ->
-    { x_line = zatom ln; x_year = zatom y; x_month = zatom m; x_day = zatom d; x_state = zatom st;
+  | L [ln; y; m; d; xa; st; c; A payee; n; xm; L posts] ->
+    { x_line = zatom ln; x_year = zatom y; x_month = zatom m; x_day = zatom d; x_aux = date_opt xa; x_state = zatom st;
       x_code = opt c; x_payee = hx payee; x_note = opt n; x_meta = meta_of xm;
       x_posts = List.map post_of posts }
   | _ -> failwith "xact"
@@ -53,7 +58,8 @@ let show_rows = function
 
 let handle line =
   match parse_sexp line with
-  | L [A "journal"; A id; A path; L fmt; L xacts; L accts; L comms] ->
+  | L [A "journal"; A id; A path; aux; L fmt; L xacts; L accts; L comms] ->
+    let aux = batom aux in
     let fmt = List.map (function L [A q; A f] -> (quoter q, field f) | _ -> failwith "fmt") fmt in
     let xs = List.map xact_of xacts in
     let accts = List.map (function L [v; A a] -> (batom v, hx a) | _ -> failwith "acct") accts in
@@ -61,9 +67,9 @@ let handle line =
         | L [A f; A s; L []] -> ((hx f, hx s), None)
         | L [A f; A s; L [pr; A d]] -> ((hx f, hx s), Some (amt_of pr, hx d))
         | _ -> failwith "comm") comms in
-    [ id ^ " csv " ^ out (csv_out fmt xs);
-      id ^ " csvd " ^ out (csv_out src_csv_format xs);
-      id ^ " emacs " ^ out (emacs_out (hx path) xs);
+    [ id ^ " csv " ^ out (csv_out aux fmt xs);
+      id ^ " csvd " ^ out (csv_out aux src_csv_format xs);
+      id ^ " emacs " ^ out (emacs_out aux (hx path) xs);
       id ^ " xmlt " ^ out (xml_transactions xs);
       id ^ " xmla " ^ out (xml_accounts accts);
       id ^ " xmlc " ^ out (xml_commodities comms) ]
